@@ -108,7 +108,8 @@ def SegsOK (l : List Seg) : Prop := ∀ s ∈ l, SegOK s
 /-- raw segments (before markLast / meta info) -/
 def RawOK (s : Seg) : Prop :=
   s.hasOptionalSlash = false ∧ s.isLast = false ∧
-  (s.isParam = false → s.length = s.const.length ∧ s.isOptional = false)
+  (s.isParam = false → s.length = s.const.length ∧ s.isOptional = false) ∧
+  (s.isParam = true → s.const = [])
 
 theorem CoreL.segsOK {l l' : List Seg} (h : CoreL l l') (hraw : ∀ s ∈ l, RawOK s) : SegsOK l' := by
   induction h with
@@ -122,7 +123,7 @@ theorem CoreL.segsOK {l l' : List Seg} (h : CoreL l l') (hraw : ∀ s ∈ l, Raw
       obtain ⟨c1, c2, _, _, _, _, c7, c8⟩ := hab
       intro hp
       rw [c2] at hp
-      refine ⟨by rw [c7 hp, c1]; exact (hr.2.2 hp).1, ?_⟩
+      refine ⟨by rw [c7 hp, c1]; exact (hr.2.2.1 hp).1, ?_⟩
       intro ho
       rcases c8 ho with h | ⟨_, h⟩
       · rw [hr.1] at h; cases h
@@ -131,7 +132,7 @@ theorem CoreL.segsOK {l l' : List Seg} (h : CoreL l l') (hraw : ∀ s ∈ l, Raw
 
 theorem analyseParameterPart_isParam {p : Bytes} {wc pc n : Nat} {seg : Seg} {wc' pc' : Nat}
     (h : analyseParameterPart p wc pc = some (n, seg, wc', pc')) :
-    seg.isParam = true ∧ seg.hasOptionalSlash = false ∧ seg.isLast = false := by
+    seg.isParam = true ∧ seg.hasOptionalSlash = false ∧ seg.isLast = false ∧ seg.const = [] := by
   unfold analyseParameterPart at h
   simp only at h
   split at h
@@ -166,7 +167,7 @@ theorem parseLoop_raw : (fuel : Nat) → (p : Bytes) → (wc pc : Nat) → (raw 
             rcases List.mem_cons.mp hs with rfl | hs
             · have := analyseParameterPart_isParam ha
               unfold RawOK
-              exact ⟨this.2.1, this.2.2, by intro hh; rw [this.1] at hh; cases hh⟩
+              exact ⟨this.2.1, this.2.2.1, (by intro hh; rw [this.1] at hh; cases hh), fun _ => this.2.2.2⟩
             · exact parseLoop_raw fuel _ _ _ rest hr s hs
       · simp only at h
         cases hr : parseLoop fuel (p.drop (analyseConstantPart p (findNextParamPosition p)).1) wc pc with
@@ -198,6 +199,23 @@ theorem parseRoute_core {p : Bytes} {pp : Parser} (h : parseRoute p = some pp) :
 theorem parseRoute_segsOK {p : Bytes} {pp : Parser} (h : parseRoute p = some pp) : SegsOK pp.segs := by
   obtain ⟨raw, hr, hc⟩ := parseRoute_core h
   exact hc.segsOK (parseLoop_raw _ _ _ _ raw hr)
+
+theorem CoreL.param_const {l l' : List Seg} (h : CoreL l l') (hraw : ∀ s ∈ l, RawOK s) :
+    ∀ s ∈ l', s.isParam = true → s.const = [] := by
+  induction h with
+  | nil => intro s hs; cases hs
+  | @cons a b as bs hab _ ih =>
+    intro s hs hp
+    rcases List.mem_cons.mp hs with rfl | hs
+    · have hr := hraw a (List.mem_cons_self ..)
+      rw [hab.1]; exact hr.2.2.2 (by rw [← hab.2.1]; exact hp)
+    · exact ih (fun s hs => hraw s (List.mem_cons_of_mem _ hs)) s hs hp
+
+/-- a parameter segment of a parsed pattern has an empty `Const` -/
+theorem parseRoute_param_const {p : Bytes} {pp : Parser} (h : parseRoute p = some pp) :
+    ∀ s ∈ pp.segs, s.isParam = true → s.const = [] := by
+  obtain ⟨raw, hr, hc⟩ := parseRoute_core h
+  exact hc.param_const (parseLoop_raw _ _ _ _ raw hr)
 
 theorem parseRoute_params {p : Bytes} {pp : Parser} (h : parseRoute p = some pp) :
     pp.params = paramNames pp.segs := by
